@@ -202,6 +202,63 @@ def run(ctx, prop):
                 prev = cur
         if len(samples) < 3:
             samples.append({"case": case["id"], "final_main": idl.render_file(case["files"][0])[:700]})
+    # ---- scripted histories: revisions that ADD declarations whose names coincide with words the
+    # grammar also uses elsewhere (a struct called `buffer`), or that supply something the first
+    # revision only named (a base interface declared later, in an included file). Whatever of the
+    # first revision is accepted must keep its numbers and its generated code.
+    _P = lambda d, t, n, a=None: {"dir": d, "type": t, "arr": a, "name": n}
+    _M = lambda nm, ps: {"k": "method", "name": nm, "optional": False, "doc": None, "params": ps}
+    store1 = {"k": "interface", "name": "IStoreR", "base": None, "members": [
+        {"k": "error", "name": "NOT_FOUND"}, _M("put", [_P("in", "uint32", "key"), _P("in", "buffer", "value")]),
+        _M("get", [_P("in", "uint32", "key"), _P("out", "buffer", "value")])]}
+    store2 = dict(store1, members=store1["members"] + [_M("erase", [_P("in", "uint32", "key")])])
+    scripted = []
+    for nm in ("buffer", "Buffer", "interface", "object", "Object"):
+        st_ = {"k": "struct", "name": nm, "fields": [{"type": "uint64", "count": 1, "name": "addr"}, {"type": "uint32", "count": 2, "name": "len"}]}
+        scripted.append((f"keyword-struct-{nm}",
+                         {"id": "C15-s1", "main": "main.idl", "incdirs": [], "files": [{"path": "main.idl", "nodes": [store1]}]},
+                         {"id": "C15-s2", "main": "main.idl", "incdirs": [], "files": [{"path": "main.idl", "nodes": [st_, store2]}]}))
+        scripted.append((f"keyword-struct-included-{nm}",
+                         {"id": "C15-s1", "main": "main.idl", "incdirs": [], "files": [{"path": "main.idl", "nodes": [{"k": "include", "path": "t.idl"}, store1]},
+                                                                                         {"path": "t.idl", "nodes": [{"k": "const", "type": "uint8", "name": "TK", "value": "1"}]}]},
+                         {"id": "C15-s2", "main": "main.idl", "incdirs": [], "files": [{"path": "main.idl", "nodes": [{"k": "include", "path": "t.idl"}, store2]},
+                                                                                         {"path": "t.idl", "nodes": [{"k": "const", "type": "uint8", "name": "TK", "value": "1"}, st_]}]}))
+    dev = {"k": "interface", "name": "IDeviceR", "base": "IServiceR", "members": [
+        {"k": "error", "name": "BUSY"}, _M("reset", []), _M("open", [_P("in", "uint32", "id"), _P("out", "uint32", "v")]), _M("close", [])]}
+    svc = {"k": "interface", "name": "IServiceR", "base": None, "members": [{"k": "error", "name": "TIMEOUT"}, _M("ping", []), _M("version", [_P("out", "uint32", "v")])]}
+    common1 = {"path": "common.idl", "nodes": [{"k": "const", "type": "uint8", "name": "CK", "value": "1"}]}
+    scripted.append(("base-supplied-later",
+                     {"id": "C15-b1", "main": "main.idl", "incdirs": [], "files": [{"path": "main.idl", "nodes": [{"k": "include", "path": "common.idl"}, dev]}, common1]},
+                     {"id": "C15-b2", "main": "main.idl", "incdirs": [], "files": [{"path": "main.idl", "nodes": [{"k": "include", "path": "common.idl"}, dev]},
+                                                                                     {"path": "common.idl", "nodes": common1["nodes"] + [svc]}]}))
+    for label, r1, r2 in scripted:
+        snaps = []
+        for rv_ in (r1, r2):
+            with C.Scratch() as tmp:
+                root, out = os.path.join(tmp, "src"), os.path.join(tmp, "out")
+                os.makedirs(out)
+                idl.render_case(rv_, root)
+                res = E.emit_all(ctx, rv_, root, out, backends=("c", "c-skel", "rust"))
+                ctx.bump("evaluations")
+                ok = res["c"][0] == 0
+                fr = {}
+                if ok:
+                    for nd in rv_["files"][0]["nodes"]:
+                        if nd["k"] == "interface":
+                            fr[nd["name"]] = method_fragments(res, "main", nd["name"], rv_)
+                snaps.append((ok, fr))
+        hist["scripted_histories"] = hist.get("scripted_histories", 0) + 1
+        if snaps[0][0] and snaps[1][0]:
+            for I, old in snaps[0][1].items():
+                for key, text in old.items():
+                    hist["fragments_compared"] += 1
+                    if snaps[1][1].get(I, {}).get(key) != text:
+                        oracle_fail.append({"case": {"id": "C15-scripted", "history": label, "rev1": idl.render_file(r1["files"][0])[:400],
+                                                     "rev2_adds": label}, "failures": [
+                            {"error": "generated code (op-code, counts, signature or marshalling) of a pre-existing method changed although the revision only added declarations",
+                             "iface": I, "fragment": list(key)}]})
+                        break
+            distinct.add(("scripted", label))
     return finish(ctx, prop, gate, oracle_fail, disagree, samples, len(distinct), hist,
                   rule="random append-only histories of 3-5 revisions (members appended at the end of random interfaces of a hierarchy; constants, "
                        "structs and interfaces inserted at random file-level positions); after each revision the op/err/method facts of the real "
